@@ -520,7 +520,13 @@ class ConfigParser(object):
     if not continue_parsing:
       return False, None
 
+    num_tokens = 0
     while continue_parsing:
+      # Adjacent string tokens are separated by a space, since joining them
+      # directly can form a different literal (e.g., `'' 'a'` -> `'''a'`).
+      if num_tokens:
+        token_value += ' '
+      num_tokens += 1
       token_value += self._current_token.string
 
       try:
